@@ -408,6 +408,9 @@ def rule_panic(G, E, R):
     for (fn, kind), where in sorted(seen.items()):
         a = allowed.get((fn, kind))
         label = "%s site" % kind
+        if not a and moved_panic_reason(E, fn, kind, set(allowed), set(seen)):
+            R.ok(rule, fn, label + " (moved)", moved_panic_reason(E, fn, kind, set(allowed), set(seen)), sorted(set(where))[0])
+            continue
         if not a:
             R.violation(rule, fn, label, "an explicit panic is reachable from the parser entry points and is not in the reviewed list "
                         "(spec/parser_panics.json): parsing must return an error, never panic", sorted(set(where))[0])
